@@ -15,4 +15,5 @@ INVARIANT XCommute
 INVARIANT RoundTrip
 INVARIANT RejectionTable
 INVARIANT StrLevel
+INVARIANT Census
 CHECK_DEADLOCK FALSE
